@@ -26,7 +26,10 @@ func (q *syntaxBasicCompareQuery) compute(
 	// leftFound == false && rightFound == false
 	if leftFound == rightFound {
 		if _, ok := q.comparator.(*syntaxCompareDeepEQ); ok {
-			return currentList
+			// Both operands are missing for every member: the comparison holds as a whole.
+			// (Returning currentList itself would let the logical operators, which blank out
+			// the list they are given, write into the caller's array.)
+			return fullList
 		}
 	}
 
